@@ -641,6 +641,40 @@ pub fn overflow_histories() -> Vec<(String, usize, usize, Vec<VOp>)> {
             out.push((format!("data sizes {p:?} put on one vertex in turn"), 2, 8, ops));
         }
     }
+    // entirely within the limits: a copy, a reload, a slice or an export taken in every short window
+    // of a group's life (between put and bind, between bind and put, between the put and the first
+    // read, between two reads, right after the collection, after the re-add); every call must complete
+    for swap in [VOp::CloneSwap, VOp::Reload, VOp::Slice(0), VOp::Exports] {
+        for put_first in [false, true] {
+            for d in [0u8, 1] {
+                for window in 0..5usize {
+                    let w = |k: usize, ops: &mut Vec<VOp>| {
+                        if k == window {
+                            ops.push(swap);
+                        }
+                    };
+                    let mut ops = vec![VOp::Add(0), VOp::Add(1), VOp::Add(2)];
+                    if put_first {
+                        ops.extend([VOp::Put(1, d), VOp::Put(2, 0)]);
+                    }
+                    w(0, &mut ops);
+                    ops.extend([VOp::Bind(0, 1, 0), VOp::Bind(0, 2, 1)]);
+                    w(1, &mut ops);
+                    if !put_first {
+                        ops.extend([VOp::Put(1, d), VOp::Put(2, 0)]);
+                    }
+                    w(2, &mut ops);
+                    ops.extend([VOp::Data(1), VOp::Kids(0)]);
+                    w(3, &mut ops);
+                    ops.extend([VOp::Data(2), VOp::Exports]);
+                    w(4, &mut ops);
+                    // the same ids again, the other bind arm
+                    ops.extend([VOp::Add(1), VOp::Add(0), VOp::Bind(1, 0, 0), VOp::Put(0, d), swap, VOp::Put(0, 1 - d), VOp::Data(0), VOp::NextId, VOp::Exports]);
+                    out.push((format!("within the limits: {swap:?} in window {window} of a group's life (put first: {put_first}, datum {d})"), 2, 4, ops));
+                }
+            }
+        }
+    }
     // ids at and above the capacity in every position
     for cap in [1usize, 3] {
         for id in [cap, cap + 1, usize::MAX] {
